@@ -1,18 +1,19 @@
 // R22 helper (VERIFIED): number of elements of a slice for which a predicate function returns true.
-pub open spec fn count_true<T, F: Fn(T) -> bool>(s: Seq<T>, f: F, n: int) -> int
+// The ghost argument p is the mathematical predicate the exec function f is known to compute.
+pub open spec fn count_p<T>(s: Seq<T>, p: spec_fn(T) -> bool, n: int) -> int
 	decreases n
 {
-	if n <= 0 || n > s.len() { 0 } else { count_true(s, f, n - 1) + (if f.ensures((s[n - 1],), true) { 1int } else { 0int }) }
+	if n <= 0 || n > s.len() { 0 } else { count_p(s, p, n - 1) + (if p(s[n - 1]) { 1int } else { 0int }) }
 }
-pub fn slice_count<T: Copy, F: Fn(T) -> bool>(s: &[T], f: F) -> (r: usize)
-	requires forall|x: T| f.requires((x,)), forall|x: T| !(f.ensures((x,), true) && f.ensures((x,), false)),
-	ensures r == count_true(s@, f, s@.len() as int), r <= s@.len(),
+pub fn slice_count<T: Copy, F: Fn(T) -> bool>(s: &[T], f: F, Ghost(p): Ghost<spec_fn(T) -> bool>) -> (r: usize)
+	requires forall|x: T| f.requires((x,)), forall|x: T, b: bool| f.ensures((x,), b) ==> b == p(x),
+	ensures r == count_p(s@, p, s@.len() as int), r <= s@.len(),
 {
 	let mut i: usize = 0;
 	let mut n: usize = 0;
 	while i < s.len()
-		invariant i <= s@.len(), n <= i, n == count_true(s@, f, i as int),
-			forall|x: T| f.requires((x,)), forall|x: T| !(f.ensures((x,), true) && f.ensures((x,), false)),
+		invariant i <= s@.len(), n <= i, n == count_p(s@, p, i as int),
+			forall|x: T| f.requires((x,)), forall|x: T, b: bool| f.ensures((x,), b) ==> b == p(x),
 		decreases s@.len() - i,
 	{
 		let b = f(s[i]);
